@@ -52,7 +52,7 @@
      "every instance holds every defaulted attribute" that is not proved). *)
 From Coq Require Import List ZArith Bool Arith Lia.
 From SC Require Import Base.Res Inst.Heap Inst.ClassTable Inst.Model Inst.Framed Inst.FrameProofs
-  Inst.Reach Inst.SepProofs Props.C01 Props.C02.
+  Inst.Reach Inst.SepProofs Props.C01 Props.C02 Inst.SepMore.
 Import ListNotations.
 Open Scope nat_scope.
 
@@ -258,6 +258,73 @@ Proof.
   split; [split; exact I|]. vm_compute. repeat split; try reflexivity; try discriminate. auto.
 Qed.
 
+(* ------------------------------------------------------------------ *)
+(* "Every instance holds every defaulted attribute in its own dictionary"
+   (proofs: coq/Inst/SepMore.v).
+
+   kext ct s s': every cell of s is still in s'; an instance cell is still an instance of
+   the same class and still holds every key it held whose attribute has a default
+   (`keep ct c a`: a is not the bookkeeping key __spec_class_initializing__, and
+   lookup_default_value of the class's attribute a cannot come back MISSING: override,
+   factory or class-level default).  So the library NEVER removes a defaulted attribute from
+   an instance dictionary; what `del` / reset_<a> / reset / invalidation really remove are
+   attributes without default, unmanaged attributes and the bookkeeping key.
+   No guard at all: every class table, operation, argument vector, outcome and failure point. *)
+Theorem C08_no_defaulted_attribute_removed :
+  forall ct roots o s, kext ct s (snd (step ct roots o s)).
+Proof. exact step_kext. Qed.
+
+(* A successful constructor call returns an instance that holds every defaulted,
+   init-enabled attribute of its class in its own dictionary (hd), provided no keyword is the
+   sentinel UNCHANGED (see C08_unchanged_keyword_refuted) and the table meets the computable
+   guard tgb: own metadata, attribute owners in the MRO, no preparer returning a sentinel
+   constant, no class-level default / override equal to UNCHANGED. *)
+Theorem C08_constructor_installs_defaults :
+  forall ct c pos kw s r s',
+    tgb ct = true -> kw_nu kw -> match pos with Some v => nu v | None => True end ->
+    exec ct XFUEL (KConstruct c pos kw) s = (Ok r, s') ->
+    exists l, r = VRef l /\ hd ct l c s'.
+Proof. exact construct_holds. Qed.
+
+(* Over ANY history (any operations of `step` with any arguments, failing steps included): the
+   root produced by the i-th operation, when that is a constructor call that returned an
+   instance, holds every defaulted init-enabled attribute in its own dictionary at the end of
+   the history — hence getattr(obj, name, default) on it never falls back to a class-level
+   default object. *)
+Theorem C08_holds_defaults_history :
+  forall ct, tgb ct = true ->
+  forall ops s roots, Forall (fun p => op_nu (fst p)) ops ->
+  forall i c pos kw fa l,
+    nth_error ops i = Some (OpConstruct c pos kw, fa) ->
+    nth (length roots + i) (snd (run_ops ct s roots ops)) VNone = VRef l ->
+    hd ct l c (fst (run_ops ct s roots ops)).
+Proof. exact ctor_roots_hold_defaults. Qed.
+
+(* The guard on keywords is necessary, and the code violates the property without it:
+   C(xs=UNCHANGED) returns an instance WITHOUT xs in its dictionary; with_x(5, _inplace=True)
+   on it then mutates the class-level default object (cell 0) itself.  Same on /repo:
+   `c = C(xs=UNCHANGED); c.with_x(5, _inplace=True); C().xs == [1, 5]`. *)
+Example C08_unchanged_keyword_refuted :
+  tgb exu_ct = true /\
+  keep_init exu_ct 2 50 /\
+  (let '(r, s1) := exec exu_ct XFUEL (KConstruct 2 None [(50, VUnchanged)]) exu_s0 in
+   r = Ok (VRef 1) /\ nth_error (heap s1) 1 = Some (OInst 2 []) /\
+   let '(r2, s2) := step exu_ct [VRef 0; VRef 1]
+                         (OpHelper 1 (HWithItem 50) (mkh [VInt 5] true true VMissing false None None [] None)) s1 in
+   r2 = Ok (VRef 1) /\ nth_error (heap s2) 0 = Some (OList [VInt 1; VInt 5])).
+Proof. exact unchanged_keyword_refuted. Qed.
+
+Example C08_constructor_installs_defaults_nonvacuous :
+  tgb exu_ct = true /\ keep_init exu_ct 2 50 /\
+  (let '(r, s1) := exec exu_ct XFUEL (KConstruct 2 None []) exu_s0 in
+   r = Ok (VRef 1) /\ nth_error (heap s1) 1 = Some (OInst 2 [(50, VRef 2)]) /\
+   let '(r2, s2) := step exu_ct [VRef 0; VRef 1]
+                         (OpHelper 1 (HWithItem 50) (mkh [VInt 5] true true VMissing false None None [] None)) s1 in
+   r2 = Ok (VRef 1) /\ nth_error (heap s2) 0 = Some (OList [VInt 1]) /\
+   nth_error (heap s2) 2 = Some (OList [VInt 1; VInt 5])).
+Proof. exact construct_holds_nonvacuous. Qed.
+
+
 Print Assumptions C08_construct_fresh.
 Print Assumptions C08_default_is_fresh.
 Print Assumptions C08_reset_keeps_defaults_isolated.
@@ -269,3 +336,8 @@ Print Assumptions C08_initial_state_isolated.
 Print Assumptions C08_nonvacuous.
 Print Assumptions C08_history_nonvacuous.
 Print Assumptions C08_inplace_confined_nonvacuous.
+Print Assumptions C08_no_defaulted_attribute_removed.
+Print Assumptions C08_constructor_installs_defaults.
+Print Assumptions C08_holds_defaults_history.
+Print Assumptions C08_unchanged_keyword_refuted.
+Print Assumptions C08_constructor_installs_defaults_nonvacuous.
